@@ -135,11 +135,35 @@ def rule_ordering(ctx):
     ctx.ob(R, f0, f0.node, len(st) == 1 and unparse(st[0].stmt.value) == "set()", "aborted producers do not start empty", text="producers-empty")
     fi = ctx.fn(f"{PR}._consume_aborted_up_to")
     c = ctx.cfg(fi)
+    # roles of the locals: the head entry of the index and its components (producer id = 0, first offset = 1), however it is taken apart
+    lists = {"self._aborted_transactions"} | {d.ast.id for d in c.nodes if d.kind == "store" and isinstance(d.ast, ast.Name) and isinstance(d.stmt, ast.Assign)
+                                               and unparse(d.stmt.value) == "self._aborted_transactions"}
+    roles = {}
+
+    def role(e):
+        if isinstance(e, ast.Name):
+            return roles.get(e.id)
+        if isinstance(e, ast.Subscript) and const_value(e.slice) == 0 and unparse(e.value) in lists:
+            return "entry"
+        if isinstance(e, ast.Subscript) and role(e.value) == "entry" and isinstance(const_value(e.slice), int):
+            return const_value(e.slice)
+        return None
+    for _i in range(3):
+        for st_ in ast.walk(fi.node):
+            if isinstance(st_, ast.Assign) and len(st_.targets) == 1:
+                r_ = role(st_.value)
+                tg = st_.targets[0]
+                if r_ is not None and isinstance(tg, ast.Name):
+                    roles.setdefault(tg.id, r_)
+                elif r_ == "entry" and isinstance(tg, (ast.Tuple, ast.List)):
+                    for k_, e_ in enumerate(tg.elts):
+                        if isinstance(e_, ast.Name):
+                            roles.setdefault(e_.id, k_)
     tests = [t for t in c.nodes if t.kind == "test" and isinstance(t.ast, ast.Compare) and len(t.ast.ops) == 1 and
-             {unparse(t.ast.left), unparse(t.ast.comparators[0])} == {"first_offset", fi.params()[1]}]
+             ((role(t.ast.left) == 1 and unparse(t.ast.comparators[0]) == fi.params()[1]) or (role(t.ast.comparators[0]) == 1 and unparse(t.ast.left) == fi.params()[1]))]
     t = ctx.one(tests, "first_offset vs batch offset comparison")
     op = type(t.ast.ops[0])
-    left_is_first = unparse(t.ast.left) == "first_offset"
+    left_is_first = role(t.ast.left) == 1
     # finite evaluation over the three orderings of (first_offset, batch_offset)
     def admits(first, batch):
         a, b = (first, batch) if left_is_first else (batch, first)
@@ -154,16 +178,16 @@ def rule_ordering(ctx):
     if branch_add == "F":
         table = {k: not v for k, v in table.items()}
     ctx.ob(R, fi, t, branch_add is not None and table == {"<": True, "=": True, ">": False}, f"index entries admitted for first_offset (<,=,>) batch offset: {table}; must be (True, True, False)", text="ordering-table")
-    ok = len(adds) == 1 and len(pops) == 1 and branch_add is not None and c.dominated_by_branch(t, branch_add, pops[0]) and unparse(arg_of(adds[0].ast, 0)) == "producer_id" \
-        and const_value(arg_of(pops[0].ast, 0)) == 0
+    ok = len(adds) == 1 and len(pops) == 1 and branch_add is not None and c.dominated_by_branch(t, branch_add, pops[0]) and role(arg_of(adds[0].ast, 0)) == 0 \
+        and const_value(arg_of(pops[0].ast, 0)) == 0 and unparse(pops[0].ast.func.value) in lists
     ctx.ob(R, fi, t, ok, "an admitted entry is not moved from the front of the index into the aborted-producer set", text="admit-moves")
     other = "F" if branch_add == "T" else "T"
     ok = len(brk) >= 1 and all(c.dominated_by_branch(t, other, b) for b in brk) and c.exit in c.reachable([m for m, l in t.succ if l == other], exc=False, include_src=True) \
         and not any(n.kind == "call" and call_attr(n.ast) in ("add", "pop") for n in c.reachable([m for m, l in t.succ if l == other], exc=False, include_src=True))
     ctx.ob(R, fi, t, ok, "scan does not stop at the first entry that starts after the batch", text="stops")
-    ds = local_defs(c, "first_offset")
-    ok = len(ds) == 1 and isinstance(ds[0].stmt, ast.Assign) and unparse(ds[0].stmt.value).endswith("[0]") and [unparse(x) for x in ds[0].stmt.targets[0].elts] == ["producer_id", "first_offset"]
-    ctx.ob(R, fi, t, ok, "entry is not unpacked as (producer_id, first_offset) from the front", text="entry-shape")
+    # (the role resolution above already demands that the compared value is component 1 and the admitted id component 0 of the FRONT entry)
+    ok = bool(adds) and role(arg_of(adds[0].ast, 0)) == 0
+    ctx.ob(R, fi, t, ok, "entry is not taken apart as (producer_id, first_offset) from the front", text="entry-shape")
     # the index given to PartitionRecords is the reply's (producer_id, first_offset) list: C03 reply-shape; order of fields from the schema
     from ..prototab import ProtoTable, elem_schema, find_field
     pt = ProtoTable(ctx.repo)
